@@ -19,6 +19,7 @@ DOC = {
         'C13.R2': 'rehash: drop(original tx) dominates the recv loop; tasks capture a Sender clone; the loop leaves only on Err(recv); every received item is added; the throttle guard is acquired before spawn and dropped inside the task',
         'C13.R3': 'no HashMap/HashSet/DashMap iteration reachable from group_files/write_report (named exceptions)',
         'C13.R4': 'each FilePos-FileLen / FileLen-FileLen is dominated by a comparison of the same operands or its right operand is clamped by min(_, left)',
+        'C13.R8': 'with --follow-links the set of scanned files does not depend on which route reaches an entry first (order of the input paths, --threads): the visited mark is level-aware, made when the directory is really read, after the route-specific tests, and links re-visit like directories (re-evaluates C09.R11)',
         'C13.R7': 'the standard input is read once: with --stdin the scan consumes the list, so the isolate roots (root_paths) and their validation use the positional arguments, and --isolate with roots only on stdin is refused with an explicit message',
         'C13.R6': 'no child process shares the standard input or output of fclones (the list of paths of --stdin, the report): every Command created in the library gets an explicit stdin and stdout before it is spawned',
         'C13.R5': 'termination: the semaphore blocking the hashing tasks never loses a wake-up (re-evaluates C19.R1-R4)',
@@ -37,6 +38,10 @@ def run(ctx):
     r5(ctx)
     r6(ctx)
     r7(ctx)
+    from .common import reevaluate
+    from . import c09
+    reevaluate(ctx, 'C13.R8', c09.r11)
+    reevaluate(ctx, 'C13.R8', c09.r11b)
     from .common import run_mandatory
     run_mandatory(ctx, 'C13')
     if ctx.tier == 'thorough' and not getattr(ctx, 'sibling', None):
